@@ -90,6 +90,17 @@ def run_case(args):
         depth = 0
         for _ in range(rng.randint(6, 14)):
             c = rng.random()
+            if rng.random() < 0.12 and depth < 2:
+                # a clause, then units falsifying its literals one by one in deeper scopes (refutation by propagation from
+                # the scope assumptions through a reason clause that holds a literal already false at the base level)
+                vs = rng.sample(p.bools, 3)
+                ls = [gen.smt(b) if rng.random() < 0.5 else f"(not {gen.smt(b)})" for b in vs]
+                neg = lambda l: l[5:-1] if l.startswith("(not ") else f"(not {l})"
+                lines += ["(assert (or " + " ".join(ls) + "))", f"(assert {neg(ls[0])})"]
+                for l in ls[1:]:
+                    lines += ["(push 1)", f"(assert {neg(l)})"]; depth += 1
+                lines += ["(check-sat)", "(get-proof)"]
+                continue
             if c < 0.2 and depth < 3:
                 lines.append("(push 1)"); depth += 1
             elif c < 0.35 and depth:
